@@ -28,6 +28,9 @@ pub enum JOp {
     /// the instance is replaced by `fresh.clone_from(&self)` where `fresh` is a
     /// new instance on the same timer that has a half pending (C12)
     ReplaceViaCloneFrom,
+    /// the timer panics at the k-th reading from now (one-shot); the NEXT operation
+    /// runs under catch_unwind and the generator is used on afterwards
+    FaultInNext(usize),
 }
 impl JOp {
     pub fn show(&self) -> String {
@@ -41,6 +44,7 @@ impl JOp {
             JOp::CloneFrom(s) => format!("clone_from(#{})", s),
             JOp::TestTimer => "test_timer".into(),
             JOp::ReplaceViaCloneFrom => "replace_via_clone_from".into(),
+            JOp::FaultInNext(k) => format!("timer_fault_in_next_op(+{})", k),
         }
     }
 }
@@ -79,7 +83,7 @@ fn real_apply<F: Fn() -> u64 + Send + Sync>(g: &mut JitterRng<F>, op: &JOp) -> J
             g.set_rounds(*r);
             JOut::Unit
         }
-        JOp::Clone | JOp::CloneFrom(_) | JOp::ReplaceViaCloneFrom => JOut::Unit,
+        JOp::Clone | JOp::CloneFrom(_) | JOp::ReplaceViaCloneFrom | JOp::FaultInNext(_) => JOut::Unit,
         JOp::TestTimer => {
             // result: the rounds adopted (0 = test failed, rounds unchanged)
             match g.test_timer() {
@@ -103,7 +107,7 @@ fn model_apply(m: &mut Jitter, op: &JOp, cur: &mut ScriptCursor, st: &mut Collec
             m.rounds = *r;
             JOut::Unit
         }
-        JOp::Clone | JOp::CloneFrom(_) | JOp::ReplaceViaCloneFrom => JOut::Unit,
+        JOp::Clone | JOp::CloneFrom(_) | JOp::ReplaceViaCloneFrom | JOp::FaultInNext(_) => JOut::Unit,
         JOp::TestTimer => {
             m.test_timer_effect(cur);
             JOut::I64(-1) // verdict not modelled: the caller adopts the real one
@@ -132,6 +136,7 @@ fn gen_jop(p: &mut Prng, allow_stats: bool) -> JOp {
         15 | 16 if allow_stats => JOp::Stats(p.chance(1, 2)),
         17 => JOp::Rounds(*p.pick(&[1u8, 1, 2, 3, 4, 7, 16, 64, 255])),
         18 if allow_stats => JOp::ReplaceViaCloneFrom,
+        19 if allow_stats => JOp::FaultInNext(p.below(12) as usize),
         _ => JOp::U32,
     }
 }
@@ -160,12 +165,64 @@ fn parse_explicit(v: &Value) -> Option<(Vec<u64>, u64, u8, Vec<JOp>)> {
 fn c12_run_script(readings: Vec<u64>, tail: u64, rounds: u8, ops: &[JOp], class: &str, sub: &str, id: u64, r: &mut Report) {
     let timer = ScriptedTimer::new(readings, tail);
     let mut cur = timer.model_cursor();
+    // rounds == 0 encodes "leave the documented default of new_with_timer (64), after a
+    // system-clock JitterRng::new() ran in this process" (nothing may carry over)
+    if rounds == 0 {
+        let _ = JitterRng::new().map(|mut g| g.next_u32());
+        r.cov("default_rounds_after_system_clock_instance");
+    }
     let mut real = JitterRng::new_with_timer(timer.closure());
     let mut model = Jitter::new();
-    real.set_rounds(rounds);
-    model.rounds = rounds;
+    if rounds != 0 {
+        real.set_rounds(rounds);
+        model.rounds = rounds;
+    }
     let mut st = CollectStats::default();
+    let mut fault_armed: Option<usize> = None;
     for (i, op) in ops.iter().enumerate() {
+        if let JOp::FaultInNext(k) = op {
+            fault_armed = Some(*k);
+            continue;
+        }
+        if let Some(k) = fault_armed.take() {
+            if matches!(op, JOp::U32 | JOp::U64 | JOp::Fill(_) | JOp::Stats(_) | JOp::TestTimer) {
+                timer.inject_fault_after(k);
+                let res = guarded(|| real_apply(&mut real, op));
+                let fired = !timer.fault_pending();
+                timer.clear_fault();
+                match res {
+                    Err(c) if c.message.contains(TIMER_FAULT_MSG) => {
+                        // the aborted call returned nothing: no half is pending afterwards; the
+                        // partially mixed pool is taken over from the hook, the timer position too
+                        model.pool = real.verif_pool();
+                        cur.pos = timer.calls();
+                        // timer_stats / test_timer are not output calls: a half that was
+                        // pending stays pending (in the register they folded into)
+                        let output_call = matches!(op, JOp::U32 | JOp::U64 | JOp::Fill(_));
+                        if output_call {
+                            model.half_pending = false;
+                        }
+                        r.eval();
+                        if output_call && real.verif_half_pending() {
+                            r.violation("JitterRng:half_pending_after_aborted_call".into(), sub, id, json!({
+                                "ops": show_jops(ops), "op_index": i, "op": op.show(),
+                                "note": "the timer closure panicked inside the call (caught by the caller); the call handed nothing out, yet a half is marked pending"}));
+                            return;
+                        }
+                        r.cov("op:timer_fault_recovered");
+                        continue;
+                    }
+                    Err(c) => { r.violation(format!("JitterRng:{}", c.signature()), sub, id, json!({"ops": show_jops(ops), "op_index": i})); return; }
+                    Ok(_) if !fired => {
+                        // the call ended before the faulty reading: cannot be replayed on the
+                        // model any more (it already ran): abandon this script
+                        r.cov("fault_not_reached");
+                        return;
+                    }
+                    Ok(_) => { r.inconclusive("fault fired but the call returned".into()); return; }
+                }
+            }
+        }
         if *op == JOp::ReplaceViaCloneFrom {
             // Clone::clone_from into an instance that itself holds a pending half:
             // afterwards the destination is a clone of `real` (no half pending)
@@ -238,14 +295,14 @@ fn c12_case(sub: &str, id: u64, explicit: Option<&Value>, r: &mut Report) {
     }
     let mut p = Prng::new(id);
     // the very long stall class is expensive: about 1 case in 400
-    let class = if p.chance(1, 400) { 10 } else { let c = p.below(11) as usize; if c == 10 { 11 } else { c } };
+    let class = if p.chance(1, 400) { 10 } else { let c = p.below(12) as usize; if c == 10 { 12 } else { c } };
     let n = p.range(32, 700) as usize;
     let readings = gen_script(&mut p, class, n);
-    let rounds = if class == 10 { *p.pick(&[1u8, 2, 3]) } else { *p.pick(&[1u8, 1, 1, 2, 2, 3, 5, 8, 64, 255]) };
-    let n_ops = if rounds >= 64 { p.range(1, 4) } else { p.range(2, 14) } as usize;
+    let rounds = if class == 10 { *p.pick(&[1u8, 2, 3]) } else { *p.pick(&[1u8, 1, 1, 2, 2, 3, 5, 8, 64, 255, 0]) };
+    let n_ops = if rounds >= 64 || rounds == 0 { p.range(1, 4) } else { p.range(2, 14) } as usize;
     let mut ops: Vec<JOp> = (0..n_ops).map(|_| {
         let o = gen_jop(&mut p, true);
-        if rounds >= 64 { if let JOp::Fill(k) = o { return JOp::Fill(k % 9); } }
+        if rounds >= 64 || rounds == 0 { if let JOp::Fill(k) = o { return JOp::Fill(k % 9); } }
         o
     }).collect();
     // sometimes one bulk request (>= 2048 bytes: 256+ collections) on a slow / coarse
@@ -258,7 +315,7 @@ fn c12_case(sub: &str, id: u64, explicit: Option<&Value>, r: &mut Report) {
     }
     // sometimes the documented start-up idiom comes first (1601 more readings)
     let mut readings = readings;
-    if class != 10 && rounds < 64 && p.chance(1, 6) {
+    if class != 10 && rounds < 64 && rounds != 0 && p.chance(1, 6) {
         let at = p.below(ops.len() as u64 + 1) as usize;
         ops.insert(at, JOp::TestTimer);
         if p.chance(2, 3) {
@@ -283,12 +340,13 @@ pub fn run_c12(ctx: &Ctx, only: Option<&Only>) -> Report {
     let secs = if ctx.tier_thorough { ctx.budget_s } else { 0.0 };
     let mut total = drive(ctx, "script", 24_000, secs, |id, r| c12_case("script", id, None, r));
     total.floor("stuck_measurements", 100);
-    for op in ["u32", "u64", "fill", "timer_stats", "set_rounds", "test_timer", "replace_via_clone_from"] {
+    for op in ["u32", "u64", "fill", "timer_stats", "set_rounds", "test_timer", "replace_via_clone_from", "timer_fault_recovered"] {
         total.floor(&format!("op:{}", op), 100);
     }
     total.floor("rounds:1", 10);
     total.floor("bulk_fill", 20);
     total.floor("rounds:255", 10);
+    total.floor("default_rounds_after_system_clock_instance", 100);
     for c in SCRIPT_CLASSES {
         total.floor(&format!("script_class:{}", c), if c == "long_stall" { 4 } else { 10 });
     }
@@ -467,9 +525,9 @@ fn zigzag_deltas(p: &mut Prng, target_sum: u64) -> Vec<i64> {
     out
 }
 
-pub const TT_CLASSES: [&str; 12] = [
+pub const TT_CLASSES: [&str; 14] = [
     "mean_boundary", "pow2_boundary", "backward_3_4", "mod100_270_271", "stuck_270_271", "zero_reading",
-    "zero_delta", "huge_deltas", "jittery", "tiny", "table_range", "mixed_script",
+    "zero_delta", "huge_deltas", "jittery", "tiny", "table_range", "mixed_script", "staircase", "threshold_combo",
 ];
 
 fn c13_gen(p: &mut Prng, class: usize) -> Vec<u64> {
@@ -569,6 +627,36 @@ fn c13_gen(p: &mut Prng, class: usize) -> Vec<u64> {
             let amp = p.range(1, 5);
             let d: Vec<i64> = (0..PROBES).map(|_| base + p.below(amp) as i64).collect();
             tt_script(p, &d, start)
+        }
+        12 => {
+            // staircase probe durations: each value repeated 2-3 times, then a constant
+            // step up (d, d, 2d, 2d, 3d …): repeated deltas followed by a continuation of
+            // the earlier slope; about half of the probes are really stuck
+            let d0 = p.range(3, 50) as i64;
+            let step = p.range(1, 30) as i64;
+            let rep = p.range(2, 3) as usize;
+            let d: Vec<i64> = (0..300).map(|i| d0 + step * (i / rep) as i64).collect();
+            with_warm(p, d)
+        }
+        13 => {
+            // two conditions near their thresholds at once: 269..273 multiples of 100
+            // (or stuck probes) of which 1..3 also ran backwards
+            let n_special = *p.pick(&[269usize, 270, 271, 272, 273]);
+            let n_back = p.range(1, 3) as usize;
+            let stuck_variant = p.chance(1, 3);
+            let c = 100 * p.range(1, 50) as i64;
+            let mut d: Vec<i64> = (0..300).map(|_| { let v = p.range(101, 90_000) as i64; if v % 100 == 0 { v + 1 } else { v } }).collect();
+            let mut idx: Vec<usize> = (0..300).collect();
+            for i in (1..300).rev() { idx.swap(i, p.below(i as u64 + 1) as usize); }
+            if stuck_variant {
+                // a constant run at the end (stuck by the first difference)
+                for i in 300 - n_special..300 { d[i] = c + 1; }
+                for k in 0..n_back { d[300 - 1 - 2 * k] = -(c + 1); }
+            } else {
+                for &i in idx.iter().take(n_special) { d[i] = 100 * p.range(1, 900) as i64; }
+                for &i in idx.iter().take(n_back) { d[i] = -d[i]; }
+            }
+            with_warm(p, d)
         }
         _ => { let c = p.below(SCRIPT_CLASSES.len() as u64) as usize; gen_script(p, c, 1601) }
     }
@@ -1015,16 +1103,18 @@ fn c15_case(sub: &str, id: u64, ctx: &Ctx, r: &mut Report) {
         // the pool before it. Affine map read off 64 basis pools, rank, and a
         // colliding pair re-run on the real code if the rank is deficient.
         "op_sequences" => {
-            let class = { let c = p.below(11) as usize; if c == 10 { 11 } else { c } };
+            let class = { let c = p.below(12) as usize; if c == 10 { 12 } else { c } };
             let rounds = *p.pick(&[1u8, 1, 2, 3]);
             let n_ops = p.range(1, 6) as usize;
-            let ops: Vec<JOp> = (0..n_ops).map(|_| match p.below(9) {
+            let ops: Vec<JOp> = (0..n_ops).map(|_| match p.below(10) {
                 0..=2 => JOp::U32,
                 3..=4 => JOp::U64,
                 5 => JOp::Fill(p.below(14) as usize),
                 6 => JOp::Stats(p.chance(1, 2)),
                 // (test_timer costs about a minute per call under an interpreter)
                 7 if ctx.scale >= 1.0 => JOp::TestTimer,
+                // a timer panic inside the next call, recovered by the caller
+                8 => JOp::FaultInNext(p.below(10) as usize),
                 _ => JOp::U32,
             }).collect();
             let need = 400 + ops.iter().map(|o| if *o == JOp::TestTimer { 1700 } else { 60 }).sum::<usize>();
@@ -1036,8 +1126,18 @@ fn c15_case(sub: &str, id: u64, ctx: &Ctx, r: &mut Report) {
                 g.set_rounds(rounds);
                 g.verif_set_pool(d);
                 for op in &ops {
-                    let _ = real_apply(&mut g, op);
+                    if let JOp::FaultInNext(k) = op {
+                        timer.inject_fault_after(*k);
+                        continue;
+                    }
+                    // (a fault armed for this call is caught here, as a caller would)
+                    let _ = guarded(|| real_apply(&mut g, op));
+                    timer.clear_fault();
                 }
+                // one more collection, so that a reset deferred to "the next collection after
+                // an aborted one" shows in the pool
+                timer.clear_fault();
+                let _ = g.next_u64();
                 g.verif_pool()
             };
             let mut f = |d: u64| run(d);
